@@ -27,6 +27,7 @@ CFG_2D = dict(CFG_1D, set_idx=("all", "i0", "c0"))
 WORLDS = {
     "x4": ([("x", (4,), 0, False), ("y", (3,), 5, False)], CFG_1D),
     "x23": ([("x", (2, 3), 0, False), ("y", (3,), 7, False)], CFG_2D),
+    "x23F": ([("x", (2, 3), 0, False, "F"), ("y", (3,), 7, False)], CFG_2D),
     "x4c": ([("x", (4,), 0, True), ("y", (3,), 5, False)], CFG_1D),
     "x23c": ([("x", (2, 3), 0, True), ("y", (3,), 7, True)], CFG_2D),
 }
@@ -37,8 +38,8 @@ SUB = dict(  # the productive corner: views, .shape=, in-place
 WORLDS["x4sub"] = (WORLDS["x4"][0], SUB)
 
 BOUNDS = {
-    "quick": [("x4", 4), ("x23", 3)],
-    "thorough": [("x4", 4), ("x23", 4), ("x4c", 3), ("x23c", 3), ("x4sub", 5)],
+    "quick": [("x4", 4), ("x23", 3), ("x23F", 3)],
+    "thorough": [("x4", 4), ("x23", 4), ("x4c", 3), ("x23c", 3), ("x4sub", 5), ("x23F", 4)],
 }
 
 
@@ -93,7 +94,6 @@ def _fails(init, h, seed):
 
 
 def replay(case):
-    init = [tuple(tuplify(i)) for i in case["init"]]
     init = [(n, tuple(s), o, c) for n, s, o, c in init]
     h = [tuplify(s) for s in case["history"]]
     f = _fails(init, h, case.get("seed", 0))
@@ -120,7 +120,7 @@ def signature(h, f):
 
 def finalize(v):
     case = v["case"]
-    init = [(n, tuple(s), o, c) for n, s, o, c in case["init"]]
+    init = [(i[0], tuple(i[1])) + tuple(i[2:]) for i in case["init"]]
     seed = case.get("seed", 0)
     h = [tuplify(s) for s in case["history"]]
     f0 = _fails(init, h, seed)
